@@ -125,12 +125,12 @@ func (ca *harnessCA) leaf(names []string, opt string) tls.Certificate {
 // ---------------------------------------------------------------- generic listener
 
 type peer struct {
-	name string
-	ln   net.Listener
-	log  *hitLog
-	wg   sync.WaitGroup
-	mu   sync.Mutex
-	nc   int
+	name  string
+	ln    net.Listener
+	log   *hitLog
+	wg    sync.WaitGroup
+	mu    sync.Mutex
+	nc    int
 	conns map[net.Conn]struct{}
 }
 
